@@ -95,6 +95,19 @@ class Check(PropCheck):
             names = ['z%d' % i for i in range(n)]; rng.shuffle(names)
             D = {frozenset(p): (Fraction(0) if rng.random() < 0.25 else Fraction(rng.randint(1, 40), 4)) for p in itertools.combinations(names, 2)}
             cases.append(self.mat_case('z%d' % j, names, D))
+        for j in range(40 if self.tier == 'quick' else 600):
+            # unambiguous minima that are tiny on an absolute scale, or separated from another cell by less than 1e-15 relative
+            n = rng.randint(3, 8)
+            names = ['s%d' % i for i in range(n)]; rng.shuffle(names)
+            scale = rng.choice([1e-20, 1e-17, 1.0, 1e-300])
+            D = {}
+            for p in itertools.combinations(names, 2):
+                D[frozenset(p)] = Fraction(rng.uniform(0.5, 8.0) * scale)
+            if scale == 1.0:
+                prs = list(D)
+                a, b = rng.sample(prs, 2)
+                D[a] = Fraction(0.1 + 0.2); D[b] = Fraction(0.3)
+            cases.append(self.mat_case('t%d' % j, names, D))
         # ultrametric from clock-like trees: heights increasing towards the root
         for j in range(100 if self.tier == 'quick' else 2000):
             n = rng.randint(3, 20 if self.tier == 'quick' else 60)
